@@ -24,13 +24,14 @@ The tie of the ghost part to the real code is component `kcpown`: per operation 
 are compared with this model.
 -/
 import KcpVerif.Props.C15
-import KcpVerif.Lemmas.KcpOwnOps
+import KcpVerif.Lemmas.KcpOwnAligned
+import KcpVerif.Lemmas.KcpOwnLost
 
 namespace KcpVerif.Props
-open KcpVerif KcpVerif.Kcp KcpVerif.Pool KcpVerif.Own
+open KcpVerif KcpVerif.Kcp KcpVerif.Pool KcpVerif.Own KcpVerif.Lemmas.KcpFlush KcpVerif.Lemmas.KcpMss
 
 /-- one operation of the instrumented core (the operations are those of `Kcp.Op`) -/
-def stepO (o : KcpO) : Op → KcpO
+def stepO (o : KcpO) : Kcp.Op → KcpO
   | .send b => (sendO o b).o
   | .recv n => (recvO o n).o
   | .input d reg nd now => (inputO o d reg nd now).o
@@ -41,13 +42,13 @@ def stepO (o : KcpO) : Op → KcpO
   | .wndSize s r => { o with k := o.k.wndSize s r }
   | .setStream v => { o with k := { o.k with stream := v } }
 
-def runO (o : KcpO) (ops : List Op) : KcpO := ops.foldl stepO o
+def runO (o : KcpO) (ops : List Kcp.Op) : KcpO := ops.foldl stepO o
 
 /-- a fresh instrumented core whose sequence numbers start anywhere (cf. `Kcp.start`) -/
 def startO (conv snd0 rcv0 : U32) : KcpO := { k := Kcp.start conv snd0 rcv0 }
 
 /-- **Erasure, one step**: the model component of the instrumented step is the model's step. -/
-theorem C15_core_step_erasure (o : KcpO) (op : Op) : (stepO o op).k = Kcp.step o.k op := by
+theorem C15_core_step_erasure (o : KcpO) (op : Kcp.Op) : (stepO o op).k = Kcp.step o.k op := by
   cases op with
   | send b => exact sendO_k o b
   | recv n => exact recvO_k o n
@@ -59,7 +60,7 @@ theorem C15_core_step_erasure (o : KcpO) (op : Op) : (stepO o op).k = Kcp.step o
   | wndSize s r => rfl
   | setStream v => rfl
 
-theorem C15_aux_inv_step {o : KcpO} (h : OwnInv o) (op : Op) : OwnInv (stepO o op) := by
+theorem C15_aux_inv_step {o : KcpO} (h : OwnInv o) (op : Kcp.Op) : OwnInv (stepO o op) := by
   cases op with
   | send b => exact sendO_inv h b
   | recv n => exact recvO_inv h n
@@ -79,7 +80,7 @@ theorem C15_aux_inv_step {o : KcpO} (h : OwnInv o) (op : Op) : OwnInv (stepO o o
     apply h.setK <;> (unfold wndSize; simp only []; split <;> split <;> rfl)
   | setStream v => exact h.setK rfl rfl rfl rfl
 
-theorem C15_aux_inv_run {o : KcpO} (h : OwnInv o) (ops : List Op) : OwnInv (runO o ops) := by
+theorem C15_aux_inv_run {o : KcpO} (h : OwnInv o) (ops : List Kcp.Op) : OwnInv (runO o ops) := by
   induction ops generalizing o with
   | nil => exact h
   | cons op ops ih => exact ih (C15_aux_inv_step h op)
@@ -90,13 +91,13 @@ theorem C15_aux_inv_start (conv snd0 rcv0 : U32) : OwnInv (startO conv snd0 rcv0
 /-- **Erasure**: the instrumented run is the tied model's run plus ghost fields — its model
 component is `Kcp.run` on the same operations, and forgetting the buffer ids of the instrumented
 queues gives exactly that state's queues. -/
-theorem C15_core_erasure (conv snd0 rcv0 : U32) (ops : List Op) :
+theorem C15_core_erasure (conv snd0 rcv0 : U32) (ops : List Kcp.Op) :
     (runO (startO conv snd0 rcv0) ops).k = Kcp.run (Kcp.start conv snd0 rcv0) ops ∧
     er (runO (startO conv snd0 rcv0) ops).sq = (Kcp.run (Kcp.start conv snd0 rcv0) ops).snd_queue ∧
     er (runO (startO conv snd0 rcv0) ops).sb = (Kcp.run (Kcp.start conv snd0 rcv0) ops).snd_buf ∧
     er (runO (startO conv snd0 rcv0) ops).rb = (Kcp.run (Kcp.start conv snd0 rcv0) ops).rcv_buf ∧
     er (runO (startO conv snd0 rcv0) ops).rq = (Kcp.run (Kcp.start conv snd0 rcv0) ops).rcv_queue := by
-  have hk : ∀ (o : KcpO) (ops : List Op), (runO o ops).k = Kcp.run o.k ops := by
+  have hk : ∀ (o : KcpO) (ops : List Kcp.Op), (runO o ops).k = Kcp.run o.k ops := by
     intro o ops
     induction ops generalizing o with
     | nil => rfl
@@ -116,7 +117,7 @@ list of operations from a fresh core (any conversation id, any initial sequence 
 arbitrary arguments — the log of pool events of the core is accepted by the sanitizer, i.e. it is
 `Disciplined`: every put and every use of a buffer happens while the buffer is owned, every get
 hands out a buffer nobody owns.  This is `C15_code_disciplined_full` for the logs of the core. -/
-theorem C15_core_disciplined (conv snd0 rcv0 : U32) (ops : List Op) :
+theorem C15_core_disciplined (conv snd0 rcv0 : U32) (ops : List Kcp.Op) :
     Disciplined (runO (startO conv snd0 rcv0) ops).gh.log :=
   (C15_sanitizer_sound _).mp (C15_aux_inv_run (C15_aux_inv_start conv snd0 rcv0) ops).w.ok
 
@@ -127,12 +128,12 @@ theorem C15_core_code_disciplined :
   exact C15_core_disciplined conv snd0 rcv0 ops
 
 /-- **recycled at most once per acquisition**: between two puts of a buffer in the core's log there is a get -/
-theorem C15_core_put_once (conv snd0 rcv0 : U32) (ops : List Op) {a b c : List Ev} {id : Nat}
+theorem C15_core_put_once (conv snd0 rcv0 : U32) (ops : List Kcp.Op) {a b c : List Ev} {id : Nat}
     (hl : (runO (startO conv snd0 rcv0) ops).gh.log = a ++ .put id :: (b ++ .put id :: c)) : .get id ∈ b :=
   C15_put_once (C15_core_disciplined conv snd0 rcv0 ops) hl
 
 /-- **never read or written after it has been recycled** -/
-theorem C15_core_no_use_after_put (conv snd0 rcv0 : U32) (ops : List Op) {a b c : List Ev} {id : Nat}
+theorem C15_core_no_use_after_put (conv snd0 rcv0 : U32) (ops : List Kcp.Op) {a b c : List Ev} {id : Nat}
     (hl : (runO (startO conv snd0 rcv0) ops).gh.log = a ++ .put id :: (b ++ .use id :: c)) : .get id ∈ b :=
   C15_no_use_after_put (C15_core_disciplined conv snd0 rcv0 ops) hl
 
@@ -156,7 +157,7 @@ most one position of `snd_queue ++ snd_buf ++ rcv_buf ++ rcv_queue` (`held` coun
 buffer that is held is owned — the most recent get/put event of it in the log is a get; in
 particular a buffer that has been recycled is held nowhere (`data = nil` after `recycleSegment`
 and the `data != nil` guard are what make this true for ACKed-then-UNA'd segments). -/
-theorem C15_core_held (conv snd0 rcv0 : U32) (ops : List Op) (id : Nat) :
+theorem C15_core_held (conv snd0 rcv0 : U32) (ops : List Kcp.Op) (id : Nat) :
     held (runO (startO conv snd0 rcv0) ops) id ≤ 1 ∧
     (held (runO (startO conv snd0 rcv0) ops) id = 1 →
       holds (runO (startO conv snd0 rcv0) ops).gh.log.reverse id = true) := by
@@ -174,7 +175,7 @@ theorem C15_core_held (conv snd0 rcv0 : U32) (ops : List Op) (id : Nat) :
 
 /-- **No leak in the core**: a buffer that has been acquired and not recycled since is held by
 exactly one queue position, or it is one of the buffers whose `Get()[:n]` panicked (`lost`). -/
-theorem C15_core_no_leak (conv snd0 rcv0 : U32) (ops : List Op) (id : Nat)
+theorem C15_core_no_leak (conv snd0 rcv0 : U32) (ops : List Kcp.Op) (id : Nat)
     (h : holds (runO (startO conv snd0 rcv0) ops).gh.log.reverse id = true) :
     held (runO (startO conv snd0 rcv0) ops) id + (runO (startO conv snd0 rcv0) ops).gh.lost.count id = 1 := by
   have hw := (C15_aux_inv_run (C15_aux_inv_start conv snd0 rcv0) ops).w
@@ -186,13 +187,85 @@ theorem C15_core_no_leak (conv snd0 rcv0 : U32) (ops : List Op) (id : Nat)
 
 /-- ids are acquisition numbers: the `n`-th `Get` of a run hands out id `n` (this is the numbering
 the harness applies to the real sanitizer's log), so every get in the log is of a fresh id -/
-theorem C15_core_fresh (conv snd0 rcv0 : U32) (ops : List Op) (id : Nat)
+theorem C15_core_fresh (conv snd0 rcv0 : U32) (ops : List Kcp.Op) (id : Nat)
     (h : holds (runO (startO conv snd0 rcv0) ops).gh.log.reverse id = true) :
     id < (runO (startO conv snd0 rcv0) ops).gh.next := by
   have hw := (C15_aux_inv_run (C15_aux_inv_start conv snd0 rcv0) ops).w
   have hag := C15_aux_replay_agree _ St.init [] C15_aux_agree_init hw.ok
   rw [List.append_nil] at hag
   exact hw.fresh id ((hag id).mpr h)
+
+theorem C15_aux_al_step {o : KcpO} (hs : Sync o) (h : Aligned o) (op : Kcp.Op) : Aligned (stepO o op) := by
+  cases op with
+  | send b => exact sendO_al h b
+  | recv n => exact recvO_al h n
+  | input d reg nd now => exact inputO_al hs h d reg nd now
+  | flush full now => exact flushO_al hs h full now
+  | update now => exact updateO_al hs h now
+  | setMtu m => exact h.setK _
+  | noDelay a b c d => exact h.setK _
+  | wndSize s r => exact h.setK _
+  | setStream v => exact h.setK _
+
+theorem C15_aux_al_run {o : KcpO} (hi : OwnInv o) (h : Aligned o) (ops : List Kcp.Op) : Aligned (runO o ops) := by
+  induction ops generalizing o with
+  | nil => exact h
+  | cons op ops ih => exact ih (C15_aux_inv_step hi op) (C15_aux_al_step hi.sync h op)
+
+/-- **The buffer ids are aligned with the segments.**  In every reachable state a segment of snd_buf
+has given its buffer back exactly if it is marked acked (`seg.data == nil ↔ seg.acked == 1`), and
+every segment of snd_queue, rcv_buf and rcv_queue owns a buffer.  So the read sites never meet a
+recycled segment: phase 5 of flush skips acked segments — everything it transmits still owns its
+buffer — and Recv copies out of segments that own theirs. -/
+theorem C15_core_aligned (conv snd0 rcv0 : U32) (ops : List Kcp.Op) :
+    (∀ x ∈ (runO (startO conv snd0 rcv0) ops).sq, x.buf ≠ none ∧ x.s.acked = false) ∧
+    (∀ x ∈ (runO (startO conv snd0 rcv0) ops).sb, (x.buf = none ↔ x.s.acked = true)) ∧
+    (∀ x ∈ (runO (startO conv snd0 rcv0) ops).rb, x.buf ≠ none) ∧
+    (∀ x ∈ (runO (startO conv snd0 rcv0) ops).rq, x.buf ≠ none) := by
+  have h := C15_aux_al_run (C15_aux_inv_start conv snd0 rcv0)
+    (⟨fun _ h => (by cases h), fun _ h => (by cases h), fun _ h => (by cases h), fun _ h => (by cases h)⟩ :
+      Aligned (startO conv snd0 rcv0)) ops
+  exact ⟨h.sq, h.sb, h.rb, h.rq⟩
+
+theorem C15_aux_mss_step {o : KcpO} (h : InvMss o.k) (op : Kcp.Op) :
+    InvMss (stepO o op).k ∧ (stepO o op).gh.lost = o.gh.lost := by
+  rw [C15_core_step_erasure]
+  cases op with
+  | send b => exact ⟨(send_ok o.k b h).2.1, sendO_lost h b⟩
+  | recv n => exact ⟨inv_of_view h (recv_view o.k n), recvO_lost o n⟩
+  | input d reg nd now => exact ⟨(input_ok o.k d reg nd now h).2.2.1, inputO_lost o d reg nd now⟩
+  | flush full now => exact ⟨(flush_ok o.k full now h).2.2.1, flushO_lost o full now⟩
+  | update now => exact ⟨(update_ok o.k now h).2.2.1, updateO_lost o now⟩
+  | setMtu m => exact ⟨setMtu_inv o.k m h, rfl⟩
+  | noDelay a b c d => exact ⟨inv_of_view h (noDelay_view o.k a b c d), rfl⟩
+  | wndSize s r => exact ⟨inv_of_view h (wndSize_view o.k s r), rfl⟩
+  | setStream v => exact ⟨inv_of_view h rfl, rfl⟩
+
+/-- **Nothing is ever dropped**: in a run from a fresh core no buffer is acquired and then abandoned
+(the `Get()[:n]` panics are unreachable: `Input` checks the length first, `Send` slices at most
+`mss ≤ mtuLimit` bytes by the MTU invariant of C10), so `C15_core_no_leak` holds without exception:
+every buffer acquired and not yet recycled is held by exactly one queue position. -/
+theorem C15_core_no_leak_exact (conv snd0 rcv0 : U32) (ops : List Kcp.Op) (id : Nat) :
+    (runO (startO conv snd0 rcv0) ops).gh.lost = [] ∧
+    (holds (runO (startO conv snd0 rcv0) ops).gh.log.reverse id = true ↔
+      held (runO (startO conv snd0 rcv0) ops) id = 1) := by
+  have key : ∀ (o : KcpO) (ops : List Kcp.Op), InvMss o.k → (runO o ops).gh.lost = o.gh.lost := by
+    intro o ops
+    induction ops generalizing o with
+    | nil => intro _; rfl
+    | cons op ops ih =>
+      intro h
+      obtain ⟨h1, h2⟩ := C15_aux_mss_step h op
+      show (runO (stepO o op) ops).gh.lost = _
+      rw [ih _ h1, h2]
+  have h0 : InvMss (startO conv snd0 rcv0).k := inv_of_view (new_inv conv) rfl
+  have hl : (runO (startO conv snd0 rcv0) ops).gh.lost = [] := key _ ops h0
+  refine ⟨hl, ?_, ?_⟩
+  · intro hh
+    have := C15_core_no_leak conv snd0 rcv0 ops id hh
+    rw [hl] at this
+    simpa using this
+  · exact (C15_core_held conv snd0 rcv0 ops id).2
 
 /-! ### non-vacuity: a concrete history with the interesting cases -/
 
@@ -202,7 +275,7 @@ def exHdr (cmd : Nat) (sn una : Nat) (len : Nat) : Bytes :=
 
 /-- congestion control off (the first flush admits); two messages sent and transmitted; ACK for sn 1, the same ACK again (must not put twice), a
 cumulative ack passing both (must put sn 0 only), a PUSH sn 0 twice (one get), a Recv -/
-def exOps : List Op :=
+def exOps : List Kcp.Op :=
   [.noDelay 1 10 2 1, .send [1, 2, 3], .send [4, 5], .flush true 10,
    .input (exHdr 82 1 0 0) true false 20,
    .input (exHdr 82 1 0 0) true false 21,
